@@ -22,7 +22,7 @@ rundemo() {
       NP=$(sed -n 's/.*-n \([0-9]*\).*/\1/p' $SD/demo.cpp | head -1); NP=${NP:-2}
       timeout 600 mpiexec --allow-run-as-root --oversubscribe -n $NP $WT/_demo >>$LOG 2>&1
     else
-      g++ -std=c++14 -O1 -w -DPARMCB_VERIF -I$WT/include -I$WT/_build/include $SD/demo.cpp -o $WT/_demo -ltbb -lboost_timer -lboost_program_options -lboost_thread >>$LOG 2>&1 || return 99
+      g++ -std=c++14 -O1 -w -DPARMCB_VERIF $(cat $SD/cxxflags 2>/dev/null) -I$WT/include -I$WT/_build/include $SD/demo.cpp -o $WT/_demo -ltbb -lboost_timer -lboost_program_options -lboost_thread >>$LOG 2>&1 || return 99
       (cd $WT && timeout 900 ./_demo) >>$LOG 2>&1
     fi
   else
